@@ -340,7 +340,7 @@ type VarCase struct {
 	N       int      `json:"n"`
 }
 
-var variants = []string{"canonical", "uncompressed", "hybrid", "flip-y", "truncate", "extend", "empty", "garbage", "wrong-codec", "pkix-for-rsa", "nonminimal-varint", "zero-x"}
+var variants = []string{"canonical", "uncompressed", "hybrid", "flip-y", "truncate", "extend", "empty", "garbage", "wrong-codec", "pkix-for-rsa", "nonminimal-varint", "zero-x", "full-point-off-curve", "full-point-constant", "compressed-off-curve"}
 
 func point(alg keys.Alg, pub crypto.PubKey) (elliptic.Curve, *big.Int, *big.Int, bool) {
 	switch alg {
@@ -401,6 +401,36 @@ func buildVariant(vc VarCase) (s string, code uint64, payload []byte, sameKey bo
 		sameKey = false
 	case "garbage":
 		payload = bytes.Repeat([]byte{byte(vc.N)}, len(canon))
+		sameKey = false
+	case "full-point-off-curve":
+		// the right length and form byte (4, 6 or 7) of a whole point, with one coordinate byte changed: almost
+		// surely not a point of the curve. Anything that computes with the coordinates before checking them meets it.
+		if !isPoint {
+			return "", 0, nil, false, false
+		}
+		payload = elliptic.Marshal(curve, x, y)
+		payload[0] = []byte{4, 6, 7}[vc.N%3]
+		payload[1+(vc.N/3)%(len(payload)-1)] ^= byte(1 << (vc.N % 8))
+		sameKey = false
+	case "full-point-constant":
+		// the point at infinity spelled as coordinates (all zero), coordinates beyond the field (all 0xff), (0,1)...
+		if !isPoint {
+			return "", 0, nil, false, false
+		}
+		payload = elliptic.Marshal(curve, x, y)
+		fill := []byte{0x00, 0xff, 0x01, 0x80}[vc.N%4]
+		for i := 1; i < len(payload); i++ {
+			payload[i] = fill
+		}
+		payload[0] = []byte{4, 6, 7}[(vc.N/4)%3]
+		sameKey = false
+	case "compressed-off-curve":
+		// a compressed point whose x has no y on the curve (about half of all x): walk from the real x
+		if !isPoint {
+			return "", 0, nil, false, false
+		}
+		payload = append([]byte{}, canon...)
+		payload[1+vc.N%(len(payload)-1)] ^= byte(1 + vc.N%251)
 		sameKey = false
 	case "zero-x":
 		if !isPoint {
@@ -494,6 +524,12 @@ func TestVariantsEnumerated(t *testing.T) {
 	for _, a := range keys.AllAlgs {
 		for _, v := range variants {
 			ns := []int{0, 1, 2, 3, 4, 5}
+			if v == "full-point-off-curve" || v == "full-point-constant" || v == "compressed-off-curve" {
+				ns = nil
+				for n := 0; n < 48; n++ {
+					ns = append(ns, n, 100+7*n)
+				}
+			}
 			if v == "truncate" {
 				ns = nil
 				kb, _ := canonicalKeyBytes(a, keys.Get(a, 0).Pub)
